@@ -1,5 +1,6 @@
 import TD.C10.Lemmas
 import TD.C10.Compose
+import TD.C10.FileLemmas
 
 /-!
 # C10 — LAS written by TotalDepth reads back as the same log
@@ -430,5 +431,206 @@ theorem roundtrip_int (n : Int) : TD.C09.convertValue (intText n) = .num n 0 := 
 example : TD.C09.convertValue (fmtFixed false (1 / 8) 2) = .num 12 (-2) ∧
     TD.C09.splitWs (rowLine 6 [(0, "2889.40".toList), (1, "-999.250".toList), (3, "7".toList)] ++ ['\n']) =
       ["2889.40".toList, "-999.250".toList, "7".toList] := by decide +kernel
+
+
+/-! ## the whole file through the C09 reader (file-level round trip) -/
+
+/-- the error of the decimal read back from a printed cell -/
+theorem cellDec_spec (red : Reduction) (isInt : Bool) (d : Nat) (v : Rat) :
+    (isInt = false → (cellDec red isInt d v).2 = -(d : Int) ∧
+        |((cellDec red isInt d v).1 : Rat) / (10 : Rat) ^ d - v| ≤ 1 / (2 * (10 : Rat) ^ d)) ∧
+    (isInt = true → red.isAverage = true → (cellDec red isInt d v).2 = 0 ∧
+        |((cellDec red isInt d v).1 : Rat) - v| ≤ 1 / 2) ∧
+    (isInt = true → red.isAverage = false → v.den = 1 → (cellDec red isInt d v).2 = 0 ∧
+        ((cellDec red isInt d v).1 : Rat) = v) := by
+  refine ⟨?_, ?_, ?_⟩
+  · intro h
+    subst h
+    refine ⟨by simp [cellDec], ?_⟩
+    obtain ⟨p, hp, hb⟩ := print_error false v d
+    rw [parseDec_fmtFixed] at hp
+    injection hp with hp
+    have : (cellDec red false d v).1 = roundHalfEven (v * (10 : Rat) ^ d) := by simp [cellDec]
+    rw [this, hp]; exact hb
+  · intro h ha
+    subst h
+    refine ⟨by simp [cellDec, ha], ?_⟩
+    have h1 : (cellDec red true d v).1 = roundHalfEven (v * (10 : Rat) ^ 0) := by simp [cellDec, ha]
+    rw [h1]
+    have := roundHalfEven_err (v * (10 : Rat) ^ 0)
+    simpa using this
+  · intro h ha hden
+    subst h
+    refine ⟨by simp [cellDec, ha], ?_⟩
+    have h1 : (cellDec red true d v).1 = v.num := by simp [cellDec, ha]
+    rw [h1]
+    have := Rat.num_div_den v
+    rw [hden] at this
+    simpa using this
+
+/-- **file-level round trip**: the whole text of `write_curve_and_array_section_to_las` (curve table, comment lines,
+`~A` line, one row per frame — `fileText`, compared with the real writer on every run), placed after any well-formed
+unwrapped version section and preceding sections (`~Well …`) as the callers do, is read by the C09 model of `LASRead`
+into an array with exactly the listed channels (names and units, in order), one frame per source frame, and every cell
+the decimal `cellDec` of the reduced source value — by `cellDec_spec` within ½·10^-d of it for floating channels, equal
+to it for integer channels with first/min/max, within ½ for the `.0f` of integer mean/median.  Every reduction, subset,
+width and decimal count; `.0f` tokens (`123`) and `-0.00` included.
+
+Hypotheses (all decidable): the layouts of the preceding sections match them in number; the version section says
+WRAP NO; no preceding section is a curve section; `wfContent` of the content — i.e. header lines well formed, channel
+identities/units plain tokens, descriptions without ':', no `DATE.D`/`TIME.HHMMSS` channel, and the printed X values
+pairwise distinct (its clause on the data cells always holds: `cells_wf`).  The examples below show that WRAP NO, the
+DATE/TIME exclusion and the distinct X values are necessary. -/
+theorem roundtrip_file (v : List TD.C09.HLine) (lv : TD.C09.SectLay) (pre : List TD.C09.CSect)
+    (lpre : List TD.C09.SectLay) (c0 : ChanF) (cs : List ChanF) (S : List TD.C09.Str) (red : Reduction)
+    (w d n : Nat) (cmts : List TD.C09.Str)
+    (hlen : lpre.length = pre.length) (hwrap : TD.C09.wrapOf ⟨v, [], []⟩ = false)
+    (hpre : ∀ s ∈ pre, s.typ ≠ 'C')
+    (hwf : TD.C09.wfContent (contentOf v pre (c0 :: cs) S red d n) = true) :
+    ∃ f a, TD.C09.parse (headerText v lv pre lpre ++ fileText (c0 :: cs) S red w d n cmts) = .ok f ∧
+      f.array = some a ∧
+      a.names = (selF (c0 :: cs) S).map (fun p =>
+        ((.text p.1.ch.ident : TD.C09.Value), (.text p.1.units : TD.C09.Value))) ∧
+      a.frames = (List.range n).map (fun fr => (selF (c0 :: cs) S).map (fun p =>
+        TD.C09.Cell.num (cellDec red p.1.ch.isInt d (valAt red fr p.1.ch)).1
+          (cellDec red p.1.ch.isInt d (valAt red fr p.1.ch)).2)) ∧
+      a.frames.length = n := by
+  have hwf' := hwf
+  simp only [TD.C09.wfContent, Bool.and_eq_true, List.all_eq_true, Bool.not_eq_true', Bool.or_eq_true,
+    beq_iff_eq] at hwf'
+  obtain ⟨⟨⟨⟨⟨⟨⟨⟨⟨_, _⟩, hs⟩, _⟩, _⟩, _⟩, _⟩, _⟩, _⟩, _⟩ := hwf'
+  have hC := hs (.hdr 'C' ((selF (c0 :: cs) S).map (fun p => curveHLine p.1))) (by simp [contentOf])
+  simp only [TD.C09.wfSect, Bool.and_eq_true, List.all_eq_true] at hC
+  have hidsel : ∀ p ∈ selF (c0 :: cs) S, ∀ x ∈ p.1.ch.ident, x ≠ '\n' := by
+    intro p hp
+    have h1 := hC.2 (curveHLine p.1) (List.mem_map.2 ⟨p, hp, rfl⟩)
+    obtain ⟨hm, _⟩ := TD.C09.wfHLine_facts h1
+    obtain ⟨_, _, _, _, _, _, hall, _⟩ := TD.C09.wfMnem_facts hm
+    exact TD.C09.noLF_of_nospace (fun c hc => (hall c hc).1)
+  rw [fileText_eq_print v lv pre lpre c0 cs S red w d n cmts hlen hwrap hidsel]
+  refine ⟨_, _, TD.C09.parse_print _ _ hwf, rfl, ?_, ?_, ?_⟩
+  · simp only [curvesOf_contentOf v pre (c0 :: cs) S red d n hpre, List.map_map]
+    rfl
+  · simp only [contentOf, List.map_map]
+    apply List.map_congr_left; intro fr _
+    simp only [Function.comp_def, rowCells, List.map_map, TD.C09.expectCell]
+  · simp [contentOf]
+
+/-- the data-cell clause of `wfContent` always holds for the cells the writer prints -/
+theorem cells_wf (red : Reduction) (isInt : Bool) (d : Nat) (v : Rat) :
+    TD.C09.wfCell (.lit (cellText red isInt d v) (cellDec red isInt d v).1 (cellDec red isInt d v).2) = true := by
+  have key : ∀ (t : List Char) (m e : Int), C09Text t → TD.C09.convertValue t = .num m e →
+      (∃ k r, k < 10 ∧ (t = digitChar k :: r ∨ t = '-' :: r)) → TD.C09.wfCell (.lit t m e) = true := by
+    intro t m e ht hc hhead
+    have hp : TD.C09.parseFloat? t = some (m, e) := by
+      unfold TD.C09.convertValue at hc
+      cases hpf : TD.C09.parseFloat? t with
+      | none => rw [hpf] at hc; cases hc
+      | some me => rw [hpf] at hc; obtain ⟨a, b⟩ := me; simp only [TD.C09.Cell.num.injEq] at hc; rw [hc.1, hc.2]
+    obtain ⟨k, r, hk, hh⟩ := hhead
+    have hne : t.isEmpty = false := by rcases hh with h | h <;> (rw [h]; rfl)
+    have hns : TD.C09.noSpace t = true := by
+      simp only [TD.C09.noSpace, List.all_eq_true, Bool.not_eq_true']; exact ht.2
+    have hd := (c09_digit hk).1
+    have hf := TD.C09.isDigit_facts hd
+    have h1 : (t.head? != some '#') = true ∧ (t.head? != some '~') = true := by
+      rcases hh with h | h
+      · rw [h]; simp only [List.head?_cons, bne_iff_ne, ne_eq, Option.some.injEq]
+        exact ⟨hf.2.2.2.2.2.2.2.2, hf.2.2.2.2.2.2.2.1⟩
+      · rw [h]; simp
+    simp only [TD.C09.wfCell, hne, hns, hp, h1.1, h1.2, Bool.not_false, Bool.and_self, beq_self_eq_true]
+  have hfix : ∀ (negz : Bool) (v : Rat) (d : Nat), ∃ k r, k < 10 ∧
+      (fmtFixed negz v d = digitChar k :: r ∨ fmtFixed negz v d = '-' :: r) := by
+    intro negz v d
+    rw [fmtFixed_eq]
+    obtain ⟨k, cs, hk, h⟩ := fixedBody_head (roundHalfEven (v * (10 : Rat) ^ d)).natAbs d
+    split
+    · exact ⟨k, _, hk, Or.inr rfl⟩
+    · exact ⟨k, cs, hk, Or.inl (by rw [h]; rfl)⟩
+  have hint : ∀ n : Int, C09Text (intText n) ∧ ∃ k r, k < 10 ∧ (intText n = digitChar k :: r ∨ intText n = '-' :: r) := by
+    intro n
+    refine ⟨⟨(goodText_intText n).1, ?_⟩, ?_⟩
+    · intro c hc
+      rw [intText_eq] at hc
+      rcases List.mem_append.1 hc with h | h
+      · split at h
+        · simp at h; subst h; decide
+        · cases h
+      · exact (fixedBody_chars _ _ c h).1
+    · rw [intText_eq]
+      obtain ⟨k, cs, hk, h⟩ := fixedBody_head n.natAbs 0
+      split
+      · exact ⟨k, _, hk, Or.inr rfl⟩
+      · exact ⟨k, cs, hk, Or.inl (by rw [h]; rfl)⟩
+  unfold cellText cellDec
+  cases isInt with
+  | false =>
+    simp only [Bool.false_eq_true, if_false]
+    exact key _ _ _ (c09Text_fmtFixed false v d) (c09_convert_fmtFixed false v d) (hfix false v d)
+  | true =>
+    simp only [if_true]
+    cases red.isAverage with
+    | true =>
+      simp only [if_true]
+      have := c09_convert_fmtFixed false v 0
+      simp only [Int.natCast_zero, Int.neg_zero] at this
+      exact key _ _ _ (c09Text_fmtFixed false v 0) this (hfix false v 0)
+    | false =>
+      simp only [Bool.false_eq_true, if_false]
+      exact key _ _ _ (hint v.num).1 (c09_convert_intText v.num) (hint v.num).2
+
+/-! ### non-vacuity and necessity of the hypotheses of `roundtrip_file` -/
+
+section Examples
+open TD.C09 (HLine CSect SectLay HPad Value)
+
+def exV (wrap : Bool) : List HLine :=
+  [⟨"VERS".toList, [], .float 20 (-1), "CWLS".toList⟩, ⟨"WRAP".toList, [], .bool wrap, "one line per frame".toList⟩]
+def exLv : SectLay :=
+  { title := "ersion Information Section".toList, lines := [{ c := 1, d := 1, k := 1 }, { c := 1, d := 1 }] }
+def exPre : List CSect := [.hdr 'W' [⟨"NULL".toList, [], .float (-99925) (-2), []⟩]]
+def exLpre : List SectLay := [{ title := "ell Information Section".toList, lines := [{ c := 1, k := 2 }] }]
+
+/-- DEPT (float), GR (float, a small negative value: `-0.00`), N (integer, two samples per frame: `.0f` of the mean) -/
+def exChans (x0 x1 : Rat) (u : String) : List ChanF :=
+  [⟨⟨"DEPT".toList, false, [[x0], [x1]]⟩, "m".toList, "Depth Dimensions (1,)".toList⟩,
+   ⟨⟨"TIME".toList, false, [[-1 / 1000], [5 / 2]]⟩, u.toList, "Gamma Dimensions (1,)".toList⟩,
+   ⟨⟨"N".toList, true, [[7, 8], [1, 2]]⟩, [], "Counts Dimensions (2,)".toList⟩]
+
+/-- the header is the one the harness (and a minimal caller) writes -/
+example : headerText (exV false) exLv exPre exLpre =
+    ("~Version Information Section\nVERS. 2.0 : CWLS\nWRAP. NO : one line per frame\n" ++
+     "~Well Information Section\nNULL. -999.25 :\n").toList := by decide +kernel
+
+/-- the text written for the example: `-0.00`, the `.0f` tokens `8` and `2` (7.5 and 1.5 round to even) -/
+example : fileText (exChans 100 (201 / 2) "MS") ["N".toList, "TIME".toList, "ZZ".toList] .mean 8 2 2 ["c".toList] =
+    ("~Curve Information Section\n#MNEM.UNIT  Curve Description       \n#---------  -----------------       \n" ++
+     "DEPT.m      : Depth Dimensions (1,) \nTIME.MS     : Gamma Dimensions (1,) \nN   .       : Counts Dimensions (2,)\n" ++
+     "#c\n~A  DEPT     TIME        N\n  100.00    -0.00        8\n  100.50     2.50        2\n").toList := by
+  decide +kernel
+
+/-- the hypotheses of `roundtrip_file` hold for it -/
+example : TD.C09.wrapOf ⟨exV false, [], []⟩ = false ∧
+    TD.C09.wfContent (contentOf (exV false) exPre (exChans 100 (201 / 2) "MS")
+      ["N".toList, "TIME".toList, "ZZ".toList] .mean 2 2) = true := by decide +kernel
+
+/-- necessity of WRAP NO: under a `WRAP YES` header the reader refuses the very same rows -/
+example : (match TD.C09.parse (headerText (exV true) exLv exPre exLpre ++
+    fileText (exChans 100 (201 / 2) "MS") [] .mean 8 2 2 []) with | .error .wrapIndex => true | _ => false) = true := by
+  decide +kernel
+
+/-- necessity of distinct printed X values: 0.001 and 0.002 both print `0.00` and the reader raises `Duplicate Xaxis` -/
+example : TD.C09.wfContent (contentOf (exV false) exPre (exChans (1 / 1000) (2 / 1000) "MS") [] .mean 2 2) = false ∧
+    (match TD.C09.parse (headerText (exV false) exLv exPre exLpre ++
+      fileText (exChans (1 / 1000) (2 / 1000) "MS") [] .mean 8 2 2 []) with | .error .dupX => true | _ => false) = true := by
+  decide +kernel
+
+/-- necessity of the DATE/TIME exclusion: `TIME.HHMMSS` is a text column for the reader (outside the model: `unsupported`) -/
+example : TD.C09.wfContent (contentOf (exV false) exPre (exChans 100 101 "HHMMSS") [] .mean 2 2) = false ∧
+    (match TD.C09.parse (headerText (exV false) exLv exPre exLpre ++
+      fileText (exChans 100 101 "HHMMSS") [] .mean 8 2 2 []) with | .error .unsupported => true | _ => false) = true := by
+  decide +kernel
+
+end Examples
 
 end TD.C10
